@@ -402,6 +402,24 @@ func c06Check(cs c06Case) core.Outcome {
 			return fail("clone-mutation-leak:"+tn, "mutating %s (%s)", who, tn)
 		}
 	}
+	// (3b) every scalar of the original is now in another state than the parser left it in (booleans flipped -
+	// among them flags no parsed tree has set -, tokens and strings changed, spare capacities written): a clone of
+	// that node must again be complete and alias-free
+	{
+		for _, m := range allNodes(n) {
+			// the spacing of a declaration's signature node is not consulted by printing (the declaration's own is)
+			if fd, ok := m.(*dst.FuncDecl); ok && fd.Type != nil {
+				fd.Type.Decs.Before, fd.Type.Decs.After = dst.None, dst.None
+			}
+		}
+		var c2 dst.Node
+		if p := guard(func() { c2 = dst.Clone(n) }); p != "" {
+			return fail("clone-panic:"+tn, "Clone(%s) with every scalar field changed panicked: %s", tn, p)
+		}
+		if d := deepCompare(reflect.ValueOf(n), reflect.ValueOf(c2), tn, true); d != "" {
+			return fail("clone-incomplete:"+fieldKey(d), "Clone(%s) of a node whose scalar fields were all changed (booleans flipped, strings and tokens altered) differs from it: %s", tn, d)
+		}
+	}
 	// (4) fresh tree: clone substituted for the original prints identically
 	f2 := c06Tree(cs)
 	n2 := allNodes(f2)[cs.Node]
